@@ -6,7 +6,6 @@ import (
 	"encoding/hex"
 	"fmt"
 	"go/types"
-	"regexp"
 	"sort"
 	"strings"
 
@@ -593,29 +592,51 @@ func c12Close(p *Prog, rp *Report) {
 		r.bad("control.verifier.Close", "", "method not found", nil)
 	}
 	if f := p.Func("control", "FileHashFromHasher"); f != nil {
-		t := newTermer()
-		fields := map[string]string{}
-		for _, b := range f.Blocks {
-			for _, ins := range b.Instrs {
-				if st, ok := ins.(*ssa.Store); ok {
-					a := t.term(st.Addr)
-					if i := strings.LastIndex(a, "."); i >= 0 {
-						fields[a[i+1:]] = t.term(st.Val)
-					}
+		hasherT := p.Named("hashio", "Hasher")
+		fhT := p.Named("control", "FileHash")
+		m := NewMachine(p, nil)
+		installStringModels(m)
+		m.Hooks["fmt.Sprintf"] = func(m *Machine, st *State, call *ssa.CallCommon, args []Val) ([]Val, bool) {
+			format, _ := args[0].(string)
+			elems, _, ok := m.sliceElems(st, args[1])
+			if ok && len(elems) == 1 {
+				e := elems[0]
+				if iv, isI := e.(IfaceV); isI {
+					e = iv.V
+				}
+				if o, isO := e.(OpaqueV); isO && (format == "%x" || format == "%02x") {
+					return []Val{OpaqueV{"hex(" + o.Name + ")"}}, true
 				}
 			}
+			return sprintfModel(m, st, call, args)
 		}
-		ok := regexp.MustCompile(`^\((\*)?hashio\.Hasher\)\.Name\(`).MatchString(fields["Algorithm"]) &&
-			regexp.MustCompile(`^fmt\.Sprintf\("%x",`).MatchString(fields["Hash"]) &&
-			regexp.MustCompile(`^\((\*)?hashio\.Hasher\)\.Size\(`).MatchString(fields["Size"]) && fields["Filename"] == "p0"
-		// the %x argument must be Sum(nil)
-		okSum := false
-		for _, c := range allCalls(f) {
-			if strings.HasSuffix(calleeName(c.Common()), "hashio.Hasher).Sum") && isNilConst(c.Common().Args[len(c.Common().Args)-1]) {
-				okSum = true
+		m.InvokeHook = func(m *Machine, st *State, call *ssa.CallCommon, recv Val, args []Val) ([]Val, bool) {
+			if call.Method.Name() == "Sum" {
+				if _, isNil := args[0].(nilV); isNil {
+					return []Val{OpaqueV{"digest"}}, true
+				}
+				return []Val{OpaqueV{"digest-appended-to-something"}}, true
 			}
+			return nil, false
 		}
-		r.check(ok && okSum, "control.FileHashFromHasher", p.Pos(f.Pos()), "Algorithm = hasher.Name(), Hash = hex(hasher.Sum(nil)), Size = hasher.Size(), Filename = path", fmt.Sprintf("fields: %v (Sum(nil): %v)", fields, okSum))
+		st := initState(m, "control", "hashio")
+		hid := st.alloc(types.Typ[types.Int], OpaqueV{"hash"})
+		hv := mkStruct(hasherT, map[string]Val{"name": "sha256", "size": int64(4242), "hash": IfaceV{T: types.NewPointer(types.Typ[types.Int]), V: Ptr{Obj: hid}}})
+		st.push(f, []Val{"pool/f.deb", hv}, nil)
+		out := m.Run(st)
+		if len(out) != 1 || out[0].Status != stRet {
+			r.undecided("control.FileHashFromHasher", p.Pos(f.Pos()), retDesc(out))
+		} else {
+			sv, _ := st.Ret.(*StructV)
+			fs := structOf(fhT)
+			get := func(n string) string { return valStr(sv.F[fieldIndex(fs, n)]) }
+			ok := sv != nil && get("Algorithm") == `"sha256"` && get("Hash") == "hex(digest)" && get("Size") == "4242" && get("Filename") == `"pool/f.deb"`
+			detail := ""
+			if sv != nil {
+				detail = fmt.Sprintf("Algorithm=%s Hash=%s Size=%s Filename=%s", get("Algorithm"), get("Hash"), get("Size"), get("Filename"))
+			}
+			r.check(ok, "control.FileHashFromHasher", p.Pos(f.Pos()), "Algorithm = hasher.Name(), Hash = hex(hasher.Sum(nil)), Size = hasher.Size(), Filename = path", "entry built from a sha256 hasher of 4242 bytes: "+detail)
+		}
 	} else {
 		r.bad("control.FileHashFromHasher", "", "function not found", nil)
 	}
